@@ -315,10 +315,12 @@ def iter_data(kind, n):
         for s in itertools.product(A.ZC5, repeat=n):
             yield None, np.array(s, dtype=complex)
     elif kind == 'GENR':
-        for name, x in A.gen_real(n) + A.tones_real(n):
+        fam = A.gen_real(n) + A.tones_real(n)
+        for name, x in fam + A.scaled(fam, 2):
             yield name, x
     else:
-        for name, x in A.gen_cplx(n) + A.tones_cplx(n):
+        fam = A.gen_cplx(n) + A.tones_cplx(n)
+        for name, x in fam + A.scaled(fam, 2):
             yield name, x
 
 
